@@ -1,9 +1,9 @@
 #!/bin/bash
 # Re-verify every seeded change against the current /repo HEAD in a scratch worktree:
-# demo on the unchanged tree exits 0; patch applies; the 454 tests pass; demo exits non-zero with the patch.
+# demo on the unchanged tree exits 0; patch applies; the 454 tests pass; demo exits non-zero with the patch.  Optional argument: id prefix (e.g. C06).
 V=/tmp/verify-seeded-$$
 git -C /repo worktree add -q --detach $V HEAD || exit 9
-for d in /verif/seeded/*/; do
+for d in /verif/seeded/${1:-}*/; do
   id=$(basename $d); [ -f $d/patch.diff ] || continue
   cd $V; git checkout -q -- . ; git clean -fdq
   sed "s#/repo#$V#g" $d/demo.py > $V/_demo.py
